@@ -1,63 +1,125 @@
 import AioslskVerif.Model.PeerConnect
 /-!
 Helper lemmas for C11.  The state space of one request is finite; `good` is the inductive invariant,
-`tableOK` (decided by kernel evaluation over the complete enumeration `allS` x `allOp`) says every step from
-a good state yields a good state, `factsOK` that every good state satisfies the post-conditions the
-property theorems state.
+`tableOK` (decided by kernel evaluation over the complete enumeration of the states satisfying the first half of
+`good` x `allOp`) says every step from a good state yields a good state, and that every good state satisfies the
+post-conditions the property theorems state.
 -/
 namespace AioslskVerif.PeerConnect
 
 def allBool : List Bool := [false, true]
 def allMode : List Mode := [.fallback, .race]
-def allDPh : List DPh := [.addr, .opening, .ok, .failed, .cancelled]
-def allIPh : List IPh := [.notStarted, .waiting, .ok, .failed, .cancelled]
+def allDPh : List DPh :=
+  [.addr, .nConnecting, .opening, .nConnectedOk, .nConnectedBad, .nInit, .fClosing, .fClosed, .cClosing, .cClosed,
+   .ok, .failed, .cancelled]
+def allIPh : List IPh := [.notStarted, .waiting, .ok, .failed, .cancelled, .wClosing, .wClosed]
+def allAPh : List APh := [.none, .nConnected, .nInit, .nClosing, .nClosed]
 def allDConn : List DConn := [.none, .connecting, .open]
 def allRes : List Res := [.pending, .returnedD, .returnedI, .raised, .cancelled]
+def allNote : List Note :=
+  [.dConnecting, .dConnected, .dInit, .dClosing, .dClosed, .aConnected, .aInit, .aClosing, .aClosed, .wClosing, .wClosed]
 def allOp : List Op :=
   [.addrReply .valid, .addrReply .noAddr, .addrReply .noPort, .connectOk true, .connectOk false, .connectRefused,
-   .connectTimeout, .pierce, .cannotConnect, .indirectTimeout, .cancelRequest]
-
-def allS : List S :=
-  allMode.flatMap fun mode => allBool.flatMap fun srvFail => allDPh.flatMap fun d => allIPh.flatMap fun i =>
-  allDConn.flatMap fun dc => allBool.flatMap fun ic => allBool.flatMap fun tw => allBool.flatMap fun rw =>
-  allBool.flatMap fun aw => allRes.map fun res =>
-    { mode := mode, srvFail := srvFail, d := d, i := i, dc := dc, ic := ic, tw := tw, rw := rw, aw := aw, res := res }
+   .connectTimeout, .pierce, .cannotConnect, .indirectTimeout, .cancelRequest] ++ allNote.map .note
 
 theorem mem_allBool (b : Bool) : b ∈ allBool := by cases b <;> decide
 theorem mem_allMode (x : Mode) : x ∈ allMode := by cases x <;> decide
 theorem mem_allDPh (x : DPh) : x ∈ allDPh := by cases x <;> decide
 theorem mem_allIPh (x : IPh) : x ∈ allIPh := by cases x <;> decide
+theorem mem_allAPh (x : APh) : x ∈ allAPh := by cases x <;> decide
 theorem mem_allDConn (x : DConn) : x ∈ allDConn := by cases x <;> decide
 theorem mem_allRes (x : Res) : x ∈ allRes := by cases x <;> decide
+theorem mem_allNote (x : Note) : x ∈ allNote := by cases x <;> decide
 
 theorem mem_allOp (op : Op) : op ∈ allOp := by
   cases op with
   | addrReply r => cases r <;> decide
   | connectOk b => cases b <;> decide
+  | note n => cases n <;> decide
   | _ => decide
 
-theorem mem_allS (s : S) : s ∈ allS := by
-  simp only [allS, List.mem_flatMap, List.mem_map]
-  exact ⟨s.mode, mem_allMode _, s.srvFail, mem_allBool _, s.d, mem_allDPh _, s.i, mem_allIPh _, s.dc, mem_allDConn _,
-    s.ic, mem_allBool _, s.tw, mem_allBool _, s.rw, mem_allBool _, s.aw, mem_allBool _, s.res, mem_allRes _, rfl⟩
+/-- a state whose waiter tables and pierced-connection flag are what the phases of the two attempts say -/
+def mk (mode : Mode) (srvFail cr : Bool) (d : DPh) (i : IPh) (a : APh) (dc : DConn) (ps : Bool) (res : Res) : S :=
+  { mode := mode, srvFail := srvFail, cr := cr, d := d, i := i, a := a, dc := dc,
+    ic := (i == .ok || i == .wClosing), ps := ps, tw := (i == .waiting), rw := (i == .waiting), aw := (d == .addr),
+    res := res }
 
-/-- the inductive invariant: every table entry and connection object is what the phases of the two
-attempts say, and the request's result is what the phases say -/
-def good (s : S) : Bool :=
+/-- the direct attempt is closing its connection because it was cancelled -/
+def dCancelling (d : DPh) : Bool := d == .cClosing || d == .cClosed
+
+/-- what the connection object of the direct attempt can be in each phase -/
+def dcOf : DPh → List DConn
+  | .addr | .fClosed | .cClosed | .failed | .cancelled => [.none]
+  | .nConnecting | .opening | .fClosing => [.connecting]
+  | .nConnectedOk | .nConnectedBad | .nInit | .ok => [.open]
+  | .cClosing => [.connecting, .open]
+
+/-- whether PeerInit can have reached the peer in each phase -/
+def psOf : DPh → List Bool
+  | .nInit | .ok => [true]
+  | .cClosing | .cClosed | .cancelled => [false, true]
+  | _ => [false]
+
+/-- second half of the invariant: the request's result, the cancellation flag and the phases of the two attempts fit -/
+def ctrlOK (mode : Mode) (cr : Bool) (d : DPh) (i : IPh) (res : Res) : Bool :=
+  match mode with
+  | .fallback =>
+    i != .wClosing && i != .wClosed && ((i == .notStarted) == (d != .failed)) &&
+    (match res with
+     | .pending => if d == .failed then i == .waiting && !cr else dRunning d && (cr == dCancelling d)
+     | .returnedD => d == .ok && !cr
+     | .returnedI => i == .ok && !cr
+     | .raised => i == .failed && !cr
+     | .cancelled => cr && (d == .cancelled || i == .cancelled))
+  | .race =>
+    i != .notStarted &&
+    (match res with
+     | .pending =>
+       if cr then
+         -- cancelled, gathering: the direct attempt is closing down; or the winner is being closed
+         (dCancelling d && (i == .cancelled || i == .failed || i == .ok)) ||
+         (d == .cancelled && (i == .wClosing || i == .wClosed))
+       else
+         -- no winner yet; or the indirect attempt won and the direct one is closing down
+         ((i == .waiting || i == .failed) && ((dRunning d && !dCancelling d) || d == .failed) &&
+           !(d == .failed && i == .failed)) ||
+         (i == .ok && dCancelling d)
+     | .returnedD => d == .ok && (i == .cancelled || i == .failed) && !cr
+     | .returnedI => i == .ok && (d == .failed || d == .cancelled) && !cr
+     | .raised => d == .failed && i == .failed && !cr
+     | .cancelled => cr && (d == .cancelled || d == .failed) && (i == .cancelled || i == .failed) &&
+         (d == .cancelled || i == .cancelled))
+
+/-- first half of the invariant: every table entry and connection object is what the phases say -/
+def shapeOK (s : S) : Bool :=
   (s.tw == (s.i == .waiting)) && (s.rw == (s.i == .waiting)) && (s.aw == (s.d == .addr)) &&
-  (s.dc == (match s.d with | .opening => DConn.connecting | .ok => DConn.open | _ => DConn.none)) &&
-  (s.ic == (s.i == .ok)) &&
-  (match s.res with
-   | .pending => (s.d == .addr || s.d == .opening || s.i == .waiting) &&
-       (s.d == .addr || s.d == .opening || s.d == .failed) && (s.i == .notStarted || s.i == .waiting || s.i == .failed)
-   | .returnedD => s.d == .ok && s.i != .ok && s.i != .waiting
-   | .returnedI => s.i == .ok && s.d != .ok && s.d != .addr && s.d != .opening
-   | .raised => s.d == .failed && s.i == .failed
-   | .cancelled => s.d != .ok && s.i != .ok && s.d != .addr && s.d != .opening && s.i != .waiting &&
-       (s.d == .cancelled || s.i == .cancelled)) &&
-  (match s.mode with
-   | .fallback => (s.i == .notStarted) == (s.d != .failed)
-   | .race => s.i != .notStarted)
+  (s.ic == (s.i == .ok || s.i == .wClosing)) && (dcOf s.d).contains s.dc && (psOf s.d).contains s.ps
+
+/-- the inductive invariant -/
+def good (s : S) : Bool := shapeOK s && ctrlOK s.mode s.cr s.d s.i s.res
+
+/-- every state that satisfies the invariant (and no other combination of result, flag and phases) -/
+def allS : List S :=
+  allMode.flatMap fun mode => allBool.flatMap fun cr => allDPh.flatMap fun d => allIPh.flatMap fun i =>
+  (allRes.filter fun res => ctrlOK mode cr d i res).flatMap fun res =>
+  allBool.flatMap fun srvFail => allAPh.flatMap fun a => (dcOf d).flatMap fun dc => (psOf d).map fun ps =>
+    mk mode srvFail cr d i a dc ps res
+
+theorem eq_mk_of_shapeOK (s : S) (h : shapeOK s = true) :
+    s = mk s.mode s.srvFail s.cr s.d s.i s.a s.dc s.ps s.res ∧ s.dc ∈ dcOf s.d ∧ s.ps ∈ psOf s.d := by
+  cases s
+  simp only [shapeOK, Bool.and_eq_true, beq_iff_eq, List.contains_iff_mem] at h
+  obtain ⟨⟨⟨⟨⟨h1, h2⟩, h3⟩, h4⟩, h5⟩, h6⟩ := h
+  subst h1 h2 h3 h4
+  exact ⟨rfl, h5, h6⟩
+
+theorem mem_allS (s : S) (h : good s = true) : s ∈ allS := by
+  simp only [good, Bool.and_eq_true] at h
+  obtain ⟨hs, hc⟩ := h
+  obtain ⟨he, hd, hp⟩ := eq_mk_of_shapeOK s hs
+  simp only [allS, List.mem_flatMap, List.mem_map, List.mem_filter]
+  exact ⟨s.mode, mem_allMode _, s.cr, mem_allBool _, s.d, mem_allDPh _, s.i, mem_allIPh _, s.res,
+    ⟨mem_allRes _, hc⟩, s.srvFail, mem_allBool _, s.a, mem_allAPh _, s.dc, hd, s.ps, hp, he.symm⟩
 
 def stepOK (s : S) (op : Op) : Bool :=
   match step s op with
@@ -66,9 +128,24 @@ def stepOK (s : S) (op : Op) : Bool :=
 
 /-! what the property theorems say of a state, as decidable propositions -/
 
+/-- no listener invocation is outstanding: nothing the library does now depends on the application -/
+def settled (s : S) : Bool :=
+  (match s.d with
+   | .addr | .opening | .ok | .failed | .cancelled => true
+   | _ => false) && s.a == .none && s.i != .wClosing && s.i != .wClosed
+
+/-- every listener returns: each notification that is outstanding, and each one that follows from that, is
+acknowledged (the accepted connection first, then the direct attempt, then the winner being closed: one round
+suffices, `Drains` below) -/
+def drainOps : List Op :=
+  [.note .aConnected, .note .aInit, .note .aClosing, .note .aClosed, .note .dConnecting, .note .dConnected,
+   .note .dInit, .note .dClosing, .note .dClosed, .note .wClosing, .note .wClosed]
+
+def drain (s : S) : S := drainOps.foldl stepT s
+
 def ReturnsIff (s : S) : Prop :=
-  (s.res = .returnedD ↔ s.d = .ok) ∧ (s.res = .returnedI ↔ s.i = .ok) ∧
-    (s.d = .ok → s.dc = .open) ∧ (s.i = .ok → s.ic = true)
+  (s.res = .returnedD ↔ s.d = .ok) ∧ (s.res = .returnedI ↔ (s.i = .ok ∧ s.d ≠ .cClosing ∧ s.d ≠ .cClosed)) ∧
+    (s.d = .ok → s.dc = .open ∧ s.ps = true) ∧ (s.i = .ok → s.ic = true)
 
 def RaisesOtherwise (s : S) : Prop :=
   (s.res = .raised ↔ (s.d = .failed ∧ s.i = .failed)) ∧
@@ -78,18 +155,30 @@ def NoLeftovers (s : S) : Prop :=
   s.res ≠ .pending →
     s.tw = false ∧ s.rw = false ∧ s.aw = false ∧
     (s.dc ≠ .none → s.res = .returnedD ∧ s.dc = .open) ∧ (s.ic = true → s.res = .returnedI) ∧
-    s.d ≠ .addr ∧ s.d ≠ .opening ∧ s.i ≠ .waiting
+    dRunning s.d = false ∧ s.i ≠ .waiting ∧ s.i ≠ .wClosing ∧ s.i ≠ .wClosed
 
 def ResultFinal (s : S) : Prop :=
   s.res ≠ .pending → ∀ op ∈ allOp, ((step s op).getD s).res = s.res
+
+/-- when all listeners have returned: nothing is outstanding, a finished request is unchanged and has nothing but
+the returned connection, a cancelled request has ended, and a request that is still pending is waiting for the
+environment (the address, the connect outcome, the peer / the server / the timer) -/
+def DrainsTo (s t : S) : Prop :=
+  settled t = true ∧ (s.res ≠ .pending → t.res = s.res) ∧ (s.cr = true → t.res = .cancelled) ∧
+    (t.res = .pending → t.d = .addr ∨ t.d = .opening ∨ t.i = .waiting)
+
+def Drains (s : S) : Prop := DrainsTo s (drain s)
 
 instance (s : S) : Decidable (ReturnsIff s) := by unfold ReturnsIff; infer_instance
 instance (s : S) : Decidable (RaisesOtherwise s) := by unfold RaisesOtherwise; infer_instance
 instance (s : S) : Decidable (NoLeftovers s) := by unfold NoLeftovers; infer_instance
 instance (s : S) : Decidable (ResultFinal s) := by unfold ResultFinal; infer_instance
+instance (s t : S) : Decidable (DrainsTo s t) := by unfold DrainsTo; infer_instance
+instance (s : S) : Decidable (Drains s) := by unfold Drains; infer_instance
 
 def facts (s : S) : Bool :=
-  decide (ReturnsIff s) && decide (RaisesOtherwise s) && decide (NoLeftovers s) && decide (ResultFinal s)
+  decide (ReturnsIff s) && decide (RaisesOtherwise s) && decide (NoLeftovers s) && decide (ResultFinal s) &&
+    decide (Drains s)
 
 def tableOK : Bool := allS.all fun s => !good s || (facts s && allOp.all (stepOK s))
 
@@ -104,14 +193,15 @@ theorem good_init (m : Mode) (l f : Bool) : good (init m l f) = true := by
   simp only [initOK, List.all_eq_true, Bool.and_eq_true] at h
   exact (h m (mem_allMode m) l (mem_allBool l) f (mem_allBool f)).1.1
 
-theorem good_facts {s : S} (h : good s = true) : ReturnsIff s ∧ RaisesOtherwise s ∧ NoLeftovers s ∧ ResultFinal s := by
-  have ht := List.all_eq_true.mp table_ok s (mem_allS s)
+theorem good_facts {s : S} (h : good s = true) :
+    ReturnsIff s ∧ RaisesOtherwise s ∧ NoLeftovers s ∧ ResultFinal s ∧ Drains s := by
+  have ht := List.all_eq_true.mp table_ok s (mem_allS s h)
   simp only [h, Bool.not_true, Bool.false_or, Bool.and_eq_true, facts, decide_eq_true_eq] at ht
-  obtain ⟨⟨⟨⟨a, b⟩, c⟩, d⟩, _⟩ := ht
-  exact ⟨a, b, c, d⟩
+  obtain ⟨⟨⟨⟨⟨a, b⟩, c⟩, d⟩, e⟩, _⟩ := ht
+  exact ⟨a, b, c, d, e⟩
 
 theorem good_step {s s' : S} {op : Op} (h : good s = true) (hs : step s op = some s') : good s' = true := by
-  have ht := List.all_eq_true.mp table_ok s (mem_allS s)
+  have ht := List.all_eq_true.mp table_ok s (mem_allS s h)
   simp only [h, Bool.not_true, Bool.false_or, Bool.and_eq_true, List.all_eq_true] at ht
   have := ht.2 op (mem_allOp op)
   simp only [stepOK, hs, Bool.and_eq_true] at this
@@ -122,6 +212,10 @@ theorem good_stepT {s : S} (op : Op) (h : good s = true) : good (stepT s op) = t
   cases hs : step s op with
   | none => simpa using h
   | some s' => simpa using good_step h hs
+
+theorem run_append (m : Mode) (l f : Bool) (ops ops' : List Op) :
+    run m l f (ops ++ ops') = ops'.foldl stepT (run m l f ops) := by
+  simp [run, List.foldl_append]
 
 theorem good_run (m : Mode) (l f : Bool) (ops : List Op) : good (run m l f ops) = true := by
   unfold run
